@@ -2,7 +2,7 @@
    Property theorems only; proofs live in Proof/NegoP.v (layer 1: the pure helper functions)
    and Proof/NegoExP.v (layer 2: the offer/answer skeleton).  The model is Model/Nego.v. *)
 From Coq Require Import ZArith List Bool.
-From AV Require Import Model.Nego Proof.NegoP Proof.NegoExP.
+From AV Require Import Model.Nego Proof.NegoP Proof.NegoExP Proof.NegoWfP Proof.NegoCodecP Proof.NegoOkP.
 Import ListNotations.
 Local Open Scope Z_scope.
 
@@ -121,6 +121,42 @@ Theorem C03_answered_section : forall T mo ma, section_ok T mo ma -> is_av (m_ki
 Proof. exact section_ok_codecs. Qed.
 Print Assumptions C03_answered_section.
 
+(* FULL STATEMENT.  At any point of any session the next offer/answer exchange SUCCEEDS (returns Ok, hence by
+   C03_answer_mirrors_offer leaves both sides stable with mirrored sections ...), in either direction, i.e. also
+   for every follow-up negotiation that adds media or swaps the offering side - provided
+     - the capability tables pass the executable sanity check `tables_ok` (evaluated on the real
+       CODECS / HEADER_EXTENSIONS by every run of this check),
+     - codec preferences are capability records of the transceiver's kind (`drawn`), each non-empty
+       preference list names at least one real (non-RTX) codec (`has_real`), and
+     - same-kind transceivers on opposite sides share a preferred real codec unless one of them has no
+       preferences (`compatible`) - otherwise "no codec in common" is the specified outcome.
+   Proved on the model of the REPAIRED code (fixed = true); the code as found violates it, see the two
+   `_refuted_unrepaired` theorems below. *)
+Theorem C03_exchange_succeeds : forall T pol_a pol_b steps a b,
+  tables_ok T = true ->
+  run_session true T (init_pc pol_a) (init_pc pol_b) steps = Ok (a, b) ->
+  prefs_drawn T a -> prefs_drawn T b ->
+  (prefs_compat a b -> exists x, exchange true T a b = Ok x) /\
+  (prefs_compat b a -> exists x, exchange true T b a = Ok x).
+Proof.
+  intros T pol_a pol_b steps a b HT H Da Db.
+  destruct (run_session_wf true T steps _ _ _ _ H (wf_init T pol_a) (wf_init T pol_b) eq_refl) as [Wa [Wb Hs]].
+  split; intro Hc.
+  - exact (exchange_ok T a b HT Wa Wb Hs Da Db Hc).
+  - exact (exchange_ok T b a HT Wb Wa (eq_sym Hs) Db Da Hc).
+Qed.
+Print Assumptions C03_exchange_succeeds.
+
+(* the invariant behind it: along every session both connections stay well-formed (transceivers, mids, m-line
+   indices, sctp, transports aligned with the current m-sections) and keep the same m-section list *)
+Theorem C03_session_invariant : forall T pol_a pol_b steps a b,
+  run_session true T (init_pc pol_a) (init_pc pol_b) steps = Ok (a, b) -> wf T a /\ wf T b /\ S a = S b.
+Proof.
+  intros T pol_a pol_b steps a b H.
+  exact (run_session_wf true T steps _ _ _ _ H (wf_init T pol_a) (wf_init T pol_b) eq_refl).
+Qed.
+Print Assumptions C03_session_invariant.
+
 (* ======================= non-vacuity ======================= *)
 Definition ex_opus : codec := mkCodec [97;117;100;105;111] [111;112;117;115] 48000 (Some 2) 96 [] [].
 Definition ex_pcmu : codec := mkCodec [97;117;100;105;111] [80;67;77;85] 8000 (Some 1) 0 [] [].
@@ -158,6 +194,18 @@ Definition ex_session_check : bool :=
   end.
 Example C03_example_session : ex_session_check = true.
 Proof. vm_compute. reflexivity. Qed.
+
+(* the preference hypotheses of C03_exchange_succeeds are satisfiable with non-empty preference lists *)
+Example C03_example_prefs :
+  let pa := [mkCap [118;105;100;101;111] [86;80;56] 90000 None []] in
+  drawn (CODECS ex_tables 1) pa /\ has_real pa /\ compatible pa pa /\ compatible pa [].
+Proof.
+  cbn. split; [|split; [|split]].
+  - intros p [<-|[]]. cbn. left. reflexivity.
+  - intros _. eexists. split; [left; reflexivity | reflexivity].
+  - right. right. eexists. split; [left; reflexivity|]. split; [left; reflexivity | reflexivity].
+  - right. left. reflexivity.
+Qed.
 
 (* ======================= the code as found (fixed = false) violates the full statement ======================= *)
 (* Design section 7 item 15: the answerer owns a transceiver whose kind the offer does not contain;
